@@ -13,7 +13,7 @@ import Mathlib.Tactic.Linarith
 -/
 namespace CV.Range
 
-/-- what `generic_static_asserts!` in queue.rs plus the trait bounds admit:
+/-- what `generic_static_asserts!` in queue.rs plus the trait bounds allow:
     `PRECISION > 0`, `PRECISION ≤ Probability::BITS ≤ Word::BITS`,
     `State::BITS ≥ 2·Word::BITS`, `State::BITS % Word::BITS = 0` -/
 def RValid (c : Cfg) : Prop := c.Valid ∧ c.W ∣ c.S
